@@ -115,6 +115,10 @@ func (pf *ProofMod) Verify(Session []byte, N *big.Int) bool {
 	if pf == nil || !pf.ValidateBasic() {
 		return false
 	}
+	// big.Jacobi panics on an even modulus; N must be a positive odd number anyway
+	if N.Sign() != 1 || N.Bit(0) == 0 {
+		return false
+	}
 	// TODO: add basic properties checker
 	if isQuadraticResidue(pf.W, N) {
 		return false
